@@ -3,6 +3,7 @@ package loadbalancer
 import (
 	"errors"
 	"net/http"
+	"strconv"
 	"time"
 
 	"github.com/0xReLogic/Helios/internal/config"
@@ -200,4 +201,28 @@ func VerifC04Config(strategy int) {
 	verifrt.Assert(lb.findHealthyBackend(r) == nil, "an ejected backend receives no traffic for the configured unhealthy window (whatever the on/off combination)")
 	verifrt.Advance(2 * time.Second)
 	verifrt.Assert(lb.findHealthyBackend(r) == b, "after the configured window the backend receives traffic again")
+}
+
+// VerifC04ManyBackends: the metrics collector has seen n backend names (a large
+// pool, or a small one churned through the admin API): an ejection is still
+// reported - the metrics endpoint never shows an ejected backend as healthy,
+// however many backends it knows.
+func VerifC04ManyBackends(n int) {
+	lb := verifBareLB(0)
+	lb.metricsCollector = metrics.NewMetricsCollector()
+	b := verifBackend(0)
+	lb.strategy.AddBackend(b)
+	lb.metricsCollector.UpdateBackendHealth(b.Name, true)
+	for i := 0; i < n; i++ {
+		name := "churn-" + strconv.Itoa(i)
+		lb.metricsCollector.UpdateBackendHealth(name, true)
+		lb.metricsCollector.RecordBackendRequest(name, true, time.Millisecond)
+	}
+	lb.MarkBackendUnhealthy(b, time.Hour)
+	m := lb.metricsCollector.GetMetrics()
+	verifrt.Assert(m.BackendMetrics[b.Name] != nil && !m.BackendMetrics[b.Name].IsHealthy, "the metrics endpoint never reports an ejected backend as healthy, however many backends it has seen")
+	verifrt.Advance(2 * time.Hour)
+	verifrt.Assert(lb.IsBackendHealthy(b), "the backend is eligible again after its window")
+	m = lb.metricsCollector.GetMetrics()
+	verifrt.Assert(m.BackendMetrics[b.Name].IsHealthy, "and is reported healthy again")
 }
